@@ -157,6 +157,9 @@ func genBT(r *rng.R, degree, nops, space, ranksEvery int) btCase {
 	if nops > 400 {
 		c.Every = 50
 	}
+	if nops > 5000 { // long histories: a dump of a 3000-item tree is large, eight of them are enough
+		c.Every = nops / 8
+	}
 	step := func(o bop) {
 		c.Ops = append(c.Ops, o)
 		c.Obs = append(c.Obs, btExec(t, o))
